@@ -8,6 +8,11 @@ _POOL_FDE = ("        ) as pool:\n            for _ in pool.imap_unordered(func,
 _DOSRS_TAIL = "    SRSmax_[j] = methfunc(resphist[S:])\n    HIST_[:, :, j] = resphist[S:]\n\n\ndef _mk_par_globals_ic"
 _NOHIST_TAIL = "    resphist = signal.lfilter(b, a, SIG_, axis=0)\n    SRSmax_[j] = methfunc(resphist[S:])\n\n\ndef _dosrs(args):"
 
+_SER_COUNT = "            for jj in range(nbins):\n                pv = amp >= BinAmps[j, jj]\n                Count[j, jj] = np.sum(count[pv])\n"
+_PAR_COUNT = "    for jj in range(BinAmps_.shape[1]):\n        pv = amp >= BinAmps_[j, jj]\n        Count_[j, jj] = np.sum(count[pv])\n"
+_FDE_INIT = ("    global WN_, SIG_, ASV_, BinAmps_, Count_\n    WN_ = _to_np_array(wn)\n    SIG_ = _to_np_array(sig)\n    ASV_ = _to_np_array(asv)\n"
+             "    BinAmps_ = _to_np_array(binamps)\n    Count_ = _to_np_array(count)\n")
+
 RECIPES = [
     # ---- behaviour-breaking
     ("C09", "break", ["C09-R4"], "pyyeti/fdepsd.py", _POOL_FDE,
@@ -52,4 +57,51 @@ RECIPES = [
     ("C09", "neutral", [], "pyyeti/srs.py", "    a[:] = arr\n    return shared_arr\n", "    a[...] = arr\n    return shared_arr\n", "Ellipsis store in copyToSharedArray"),
     ("C09", "neutral", [], "pyyeti/fdepsd.py", "            resphist = signal.lfilter(b, a, sig)\n            SRSmax[j] = abs(resphist).max()\n",
      "            resphist = signal.lfilter(b, a, sig)\n            peak = np.abs(resphist).max()\n            SRSmax[j] = peak\n", "np.abs / temporary in the serial loop only"),
+    # ---- pass 2: behaviour-preserving
+    ("C09", "neutral", [], "pyyeti/fdepsd.py", _SER_COUNT,
+     "            jj = 0\n            while jj < nbins:\n                pv = amp >= BinAmps[j, jj]\n                Count[j, jj] = np.sum(count[pv])\n                jj += 1\n",
+     "counted while loop in the serial arm only"),
+    ("C09", "neutral", [], "pyyeti/fdepsd.py", _PAR_COUNT, "    Count_[j] = [np.sum(count[amp >= binamp]) for binamp in BinAmps_[j]]\n",
+     "row filled from a list comprehension in the worker only"),
+    ("C09", "neutral", [], "pyyeti/fdepsd.py", _FDE_INIT,
+     "    g = globals()\n    for name, spec in zip((\"WN_\", \"SIG_\", \"ASV_\", \"BinAmps_\", \"Count_\"), (wn, sig, asv, binamps, count)):\n"
+     "        g[name] = _to_np_array(spec)\n", "initializer binds the process globals through globals() in a loop over literal tuples"),
+    ("C09", "neutral", [], "pyyeti/fdepsd.py", "    resphist = signal.lfilter(b, a, SIG_)\n    ASV_[1, j] = abs(resphist).max()\n",
+     "    resphist = signal.lfilter(b, a, SIG_, axis=-1, zi=None)\n    ASV_[1, j] = np.max(np.abs(resphist), axis=None)\n",
+     "library defaults spelled out and function form of a reduction in the worker only"),
+    ("C09", "neutral", [], "pyyeti/srs.py", "            func = _dosrs if getresp else _dosrs_nohist\n",
+     "            func = (_dosrs_nohist, _dosrs)[bool(getresp)]\n", "worker picked from a pair by a test"),
+    ("C09", "neutral", [], "pyyeti/fdepsd.py", "        ASV = (srs.createSharedArray((3, LF)), (3, LF))\n",
+     "        mk = lambda *shp: (srs.createSharedArray(shp), shp)\n        ASV = mk(3, LF)\n", "buffer/shape pair built by a local lambda"),
+    ("C09", "neutral", [], "pyyeti/srs.py", "            with mp.Pool(\n" + _POOL_NOIC,
+     "            pool = mp.Pool(ncpu, _mk_par_globals, gvars)\n            list(pool.imap_unordered(func, enumerate(it.repeat(args, LF)), chunksize=1))\n"
+     "            pool.close()\n            pool.join()\n", "positional Pool arguments, list() drain, close/join instead of the context manager"),
+    ("C09", "neutral", [], "pyyeti/fdepsd.py", "        args = (coeffunc, Q, dT, verbose)\n        gvars = (WN, SIG, ASV, BinAmps, Count)\n",
+     "        args = (coeffunc, Q, dT, verbose)\n        specs = dict(wn=WN, sig=SIG, asv=ASV, binamps=BinAmps, count=Count)\n"
+     "        gvars = tuple(specs[k] for k in (\"wn\", \"sig\", \"asv\", \"binamps\", \"count\"))\n", "initargs assembled from a dict by a comprehension over a literal tuple"),
+    ("C09", "neutral", [], "pyyeti/fdepsd.py", "        Amax = np.zeros(LF)\n        SRSmax = np.zeros(LF)\n        Var = np.zeros(LF)\n",
+     "        Amax, SRSmax, Var = np.zeros((3, LF), dtype=float)\n", "serial arm keeps the three spectra as rows of one array, like the shared ASV"),
+    # ---- pass 2: behaviour-breaking siblings
+    ("C09", "break", ["C09-R5"], "pyyeti/fdepsd.py", _SER_COUNT,
+     "            jj = 0\n            while jj < nbins - 1:\n                pv = amp >= BinAmps[j, jj]\n                Count[j, jj] = np.sum(count[pv])\n                jj += 1\n",
+     "serial while loop stops one bin early"),
+    ("C09", "break", ["C09-R5"], "pyyeti/fdepsd.py", _PAR_COUNT, "    Count_[j] = [np.sum(count[amp > binamp]) for binamp in BinAmps_[j]]\n",
+     "comprehension in the worker counts with > instead of >="),
+    ("C09", "break", ["C09-R5", "C09-R4b"], "pyyeti/fdepsd.py", _FDE_INIT,
+     "    g = globals()\n    for name, spec in zip((\"SIG_\", \"WN_\", \"ASV_\", \"BinAmps_\", \"Count_\"), (wn, sig, asv, binamps, count)):\n"
+     "        g[name] = _to_np_array(spec)\n", "globals() initializer binds signal and frequencies crosswise"),
+    ("C09", "break", ["C09-R4", "C09-R5"], "pyyeti/srs.py", "            func = _dosrs if getresp else _dosrs_nohist\n",
+     "            func = (_dosrs, _dosrs_nohist)[bool(getresp)]\n", "pair indexed the wrong way round: history worker without a history buffer"),
+    ("C09", "break", ["C09-R5"], "pyyeti/srs.py", _NOHIST_TAIL,
+     "    resphist = signal.lfilter(b, a, SIG_, axis=1)\n    SRSmax_[j] = methfunc(resphist[S:])\n\n\ndef _dosrs(args):", "worker filters along the other axis"),
+    ("C09", "break", ["C09-R5"], "pyyeti/fdepsd.py", "    resphist = signal.lfilter(b, a, SIG_)\n    ASV_[1, j] = abs(resphist).max()\n",
+     "    resphist = signal.lfilter(b, a, SIG_)\n    ASV_[1, j] = np.max(np.abs(resphist), axis=0)\n", "reduction with a non-default axis in the worker only"),
+    ("C09", "break", ["C09-R3", "C09-R5"], "pyyeti/fdepsd.py", _POOL_FDE,
+     "        ) as pool:\n            for _ in pool.imap_unordered(func, zip(range(LF - 1), it.repeat(args, LF))):\n                pass\n"
+     "        ASV = _to_np_array(ASV)\n", "one task too few: the last frequency is never computed (sibling of seed H)"),
+    ("C09", "break", ["C09-R5"], "pyyeti/srs.py", _DOSRS_TAIL,
+     "    if WN_[j] == 0:\n        return\n    SRSmax_[j] = methfunc(resphist[S:])\n    HIST_[:, :, j] = resphist[S:]\n\n\ndef _mk_par_globals_ic",
+     "task skips the rigid-body line the serial loop computes (sibling of seed F)"),
+    ("C09", "break", ["C09-R4b"], "pyyeti/srs.py", "    a = np.frombuffer(shared_arr).reshape(arr.shape)\n    a[:] = arr\n",
+     "    a = np.frombuffer(shared_arr, dtype=arr.dtype).reshape(arr.shape)\n    a[:] = arr\n", "shared buffer filled through a view with the input's dtype (sibling of seed G)"),
 ]
